@@ -734,12 +734,9 @@ def case_classes(c):
 EXPECTED_FAILURE = {
     "model:fixed-component": (r"^fit written under ", True),
     "model:arith-prior": (r"^fit written under |^add_directory raised KeyError", True),
-    "model:single-model-with-nested": (r"^add_directory raised KeyError", False),
     "info:non-string-scalar": (r"^fit \w+: info ", True),
-    "info:container-value": (r"^add_directory raised ProgrammingError", False),
-    "search-class:Drawer": (r"Drawer: search settings cannot be read back|^add_directory raised TypeError", False),
-    "grid-searches-share-tag": (r"^add_directory raised IntegrityError", False),
-    "resumed-fit-truncated-json": (r"^add_directory raised JSONDecodeError", False),
+    # (the classes of the findings repaired in /repo -- Drawer search.json, grid searches sharing a tag, re-run fit with a
+    #  truncated json, container info values, single Model with nested paths -- explain nothing any more)
 }
 
 
@@ -1313,7 +1310,7 @@ def run(ctx):
         translated = True
         classes = [cl["name"] for cl in info["classes"]]
         ctx.notes["code_variant"] = {
-            "grid_search_id": "folder name (C11_grid_fixed applies)" if info["gs_id_uses_folder"] else "marker text (C11_grid_partial applies; C11_grid_refuted witnesses the collision)",
+            "grid_search_id": "folder name (C11_grid applies)" if info["gs_id_uses_folder"] else "marker text: REGRESSION of d04d2bc (C11_grid no longer compiles)",
             "fit_info_setter": INFO_VARIANT["v"],
             "drawer_pops_number_of_cores": any(cl["name"] == "Drawer" and "number_of_cores" in cl["chain"][0]["pops"] for cl in info["classes"]),
         }
@@ -1325,6 +1322,16 @@ def run(ctx):
     built = ctx.build() if translated else False
     # 3. cases
     cases = gen_cases(ctx, classes)
+    # pinned cases of the findings repaired in /repo: always run, each one an obligation of its own
+    corpus_dir = os.path.join(common.VERIF, "corpus", "C11")
+    pinned = {}
+    for fn in sorted(os.listdir(corpus_dir)) if os.path.isdir(corpus_dir) else []:
+        if fn.endswith(".json"):
+            d = json.load(open(os.path.join(corpus_dir, fn)))
+            d["case"]["regression"] = d["name"]
+            pinned[d["name"]] = d
+            cases.append(d["case"])
+    regression_msgs = {k: [] for k in pinned}
     if ctx.replay:
         rp = json.load(open(ctx.replay))
         if rp.get("case"):
@@ -1395,6 +1402,10 @@ def run(ctx):
         for msg in msgs:
             ctx.oracle["failures"] += 1
             ctx.failure("oracle", msg, c, classes=attributable(c, ro, msg), impl=summary(ro))
+            if c.get("regression") in regression_msgs:
+                import re as _re
+                if any(_re.search(pat, msg) for pat in pinned[c["regression"]]["must_not"]):
+                    regression_msgs[c["regression"]].append(msg)
         try:
             cc, why = coq_case(c, ro)
         except Exception as e:  # noqa
@@ -1409,6 +1420,12 @@ def run(ctx):
             ctx.sample({"case": c if c["kind"] == "settings" else {"kind": "scenario", "flavour": c["flavour"],
                                                                       "fits": [{k: f[k] for k in ("type", "name", "tag", "prefix", "search", "layout", "n_analyses")} for f in c["fits"]]}},
                        limit=8)
+    if not ctx.replay:
+        for name, bad_msgs in sorted(regression_msgs.items()):
+            ctx.obligation("regression:" + name, "regression", not bad_msgs,
+                           "repaired by %s; the pinned case %s" % (pinned[name]["repaired_by"], "passes" if not bad_msgs else "fails again: " + bad_msgs[0][:200]))
+        ctx.obligation("code-variant:fit-info-setter", "regression", INFO_VARIANT["v"] == "containers-as-json",
+                       "Fit.info setter: %s (repaired by 5bd1d10)" % INFO_VARIANT["v"])
     # 4. correspondence
     if os.path.exists(os.path.join(common.COQ, "C11", "Model.vo")) and os.path.exists(os.path.join(common.COQ, "C11", "Gen.vo")):
         hdr = ctx.header(["Lib", "Gen", "Model"]) + "\nDefinition chk := check_case search_classes gs_id_uses_folder.\n"
